@@ -1,6 +1,7 @@
 """C04 -- task-level failures are contained to their own future."""
 from ..rules import liveness as L
 from ..rules import contain as C
+from ..rules import scenario as SC
 
 EXPLANATION = (
     "Static analysis. Decides: every call of user-provided code in the worker (task call, result put) and every "
@@ -23,5 +24,6 @@ def run(e, R, tier):
         L.r_own_resolve,
         L.r_drop_resolves,
         L.r_callback_lock,
+        SC.r_scn_feeder,
     ])
 
